@@ -40,6 +40,7 @@ type CheckCfg struct {
 	Parallel      int               `json:"parallel,omitempty"` // max shard processes at once (default 16)
 	SyncRewrite   []string          `json:"sync_rewrite,omitempty"`
 	ImportRewrite []string          `json:"import_rewrite,omitempty"`     // "pkg dir|import path|shim package"
+	AccessPoints  []string          `json:"access_points,omitempty"`      // package dirs: every statement with a builtin copy() is preceded by a scheduling point
 	GlobalReset   []string          `json:"global_reset,omitempty"`       // packages that get a generated VerifResetGlobals()
 	ExtraPkgs     []string          `json:"extra_harness_pkgs,omitempty"` // other packages whose harness files (common + this id) are overlaid
 	RacePass      bool              `json:"race_pass,omitempty"`
